@@ -126,6 +126,24 @@ def minimise(ex, scn, out, cls):
         o = ex.run1(s)
         return cls in [v[0] for v in o.get("violations", [])], o
 
+    # fewer processes / a single job: search nearby seeded scenarios for the same class
+    for n2 in (2, 3, 4, 6):
+        if n2 >= scn["n"]:
+            break
+        cands = []
+        for t in range(14):
+            c = dict(scn, n=n2, delays=scn["delays"][:n2], clock_skew_s=scn["clock_skew_s"][:n2],
+                     seed=common.run_seed(scn["seed"], t, "shrink%d" % n2))
+            if t % 2 and len(scn["jobs"]) > 1:
+                c["jobs"] = scn["jobs"][:1]
+            cands.append(c)
+        outs = ex.runN(cands)
+        hit = [(c, o) for c, o in zip(cands, outs) if cls in [v[0] for v in o.get("violations", [])]]
+        if hit:
+            hit.sort(key=lambda co: (len(co[0]["jobs"]), co[1].get("steps", 0)))
+            scn, out = hit[0]
+            break
+
     cur = dict(scn)
     ch = out["choices"]
     cur["switches"] = {str(k): v for k, v in ps.switches_from_choices(ch).items()}
